@@ -266,9 +266,32 @@ func (g *Gen) stakeAmount(capWhole int64, label string) (*big.Int, string) {
 	return g.amount(big.NewInt(capWhole), label)
 }
 
+// zeroPowerRecord reports whether the validator has a committed record with power <= 0 (it is deleted at
+// the next block end; staking to it in that window is a known finding, exclusion STAKE:zero-power-record).
+func (g *Gen) zeroPowerRecord(v *sim.Val) bool {
+	for _, r := range g.W.ValRecs() {
+		if r.Address.Equal(v.Key.Addr) {
+			return r.Power <= 0
+		}
+	}
+	return false
+}
+
 func (g *Gen) Stake() txgen.Tx {
 	w := g.W
 	v := g.val("val")
+	if g.zeroPowerRecord(v) && g.excluded("STAKE:zero-power-record") {
+		found := false
+		for _, o := range w.G.U.Vals {
+			if !g.zeroPowerRecord(o) {
+				v, found = o, true
+				break
+			}
+		}
+		if !found {
+			return g.Send()
+		}
+	}
 	stakeAcc := v.Stake
 	if g.pct(g.Strange, "otherstake") {
 		_, u := g.user("stakeuser")
